@@ -116,7 +116,8 @@ func (c *seeCtx) of(v ssa.Value) *Expr {
 	if v == nil {
 		return &Expr{Op: OpUnknown, Name: "nil-value"}
 	}
-	if e, ok := c.memo[v]; ok {
+	_, isAlloc := v.(*ssa.Alloc)
+	if e, ok := c.memo[v]; ok && !isAlloc {
 		return e
 	}
 	if c.active[v] {
@@ -131,7 +132,10 @@ func (c *seeCtx) of(v ssa.Value) *Expr {
 	if e.Typ == nil {
 		e.Typ = v.Type()
 	}
-	c.memo[v] = e
+	if !isAlloc || c.ps == nil {
+		// what an address points to depends on when it is observed: not memoised in path mode
+		c.memo[v] = e
+	}
 	return e
 }
 
@@ -740,6 +744,12 @@ func StaticCallee(call *ssa.CallCommon) *ssa.Function {
 
 func (c *seeCtx) call(v *ssa.Call) *Expr {
 	cc := &v.Call
+	if c.ps != nil && v.Parent() == c.fn {
+		// pointees of the arguments are observed at the call
+		prevAt := c.defAt
+		c.defAt = v
+		defer func() { c.defAt = prevAt }()
+	}
 	if cc.IsInvoke() {
 		e := &Expr{Op: OpCall, Name: cc.Method.Name(), Obj: cc.Method, Typ: v.Type()}
 		e.Args = append(e.Args, c.of(cc.Value))
@@ -1020,6 +1030,13 @@ func (e *Expr) Contains(pred func(*Expr) bool) bool {
 	return found
 }
 
+func outermost(f *ssa.Function) *ssa.Function {
+	for f.Parent() != nil {
+		f = f.Parent()
+	}
+	return f
+}
+
 // liveStores drops stores that are overwritten before the load site: S1 is
 // dead when another store S2 to the same place satisfies S1 dom S2 dom load.
 // Only stores in the load's own function take part.
@@ -1036,9 +1053,58 @@ func (c *seeCtx) liveStores(al *ssa.Alloc, stores []placeStore, at ssa.Instructi
 		for _, sg := range c.ps.segs {
 			frames[sg.b.Parent()] = true
 		}
-		for _, s := range stores {
-			if !frames[s.st.Parent()] {
-				all = false
+		if lp0, ok := c.ps.pos(at); ok {
+			// a store in a function that is not a frame of the path can only have happened
+			// inside an opaque call to that function made earlier on the path
+			var kept []placeStore
+			for _, s := range stores {
+				g := s.st.Parent()
+				if frames[g] {
+					kept = append(kept, s)
+					continue
+				}
+				called := false
+				for si, sg := range c.ps.segs {
+					to := sg.to
+					if to < 0 || to > len(sg.b.Instrs) {
+						to = len(sg.b.Instrs)
+					}
+					for i := sg.from; i < to && !called; i++ {
+						if si*100000+i >= lp0 {
+							break
+						}
+						if ci, isCall := sg.b.Instrs[i].(ssa.CallInstruction); isCall {
+							callee := StaticCallee(ci.Common())
+							if callee == g {
+								called = true
+							}
+							// an opaque call that receives the address may reach g
+							if (callee == nil || !frames[callee]) && al != nil {
+								for _, arg := range ci.Common().Args {
+									for _, av := range allocAliases(al) {
+										if arg == av {
+											called = true
+										}
+									}
+								}
+							}
+						}
+					}
+				}
+				// a function nested in (or enclosing) a frame shares its variables through closure capture
+				related := false
+				for f := range frames {
+					if outermost(f) == outermost(g) {
+						related = true
+					}
+				}
+				if called || related {
+					all = false // may have executed: fall back to the flow-insensitive answer
+					kept = append(kept, s)
+				}
+			}
+			if all {
+				stores = kept
 			}
 		}
 		if lp, ok := c.ps.pos(at); ok && all {
